@@ -65,12 +65,42 @@ def run_case(case):
         o = lab.run(steps, validate=True)
         return {'ok': o.ok, 'error': None if o.ok else o.errstr()}
 
+    def snapshot_problem(out):
+        """State-based form of the property: evaluated on the live directory right before an I/O event."""
+        path = os.path.join(out, 'datapackage.json')
+        if not os.path.exists(path):
+            return None
+        try:
+            desc = json.loads(open(path, 'rb').read().decode('utf-8'))
+        except Exception:
+            return None
+        for rd in desc.get('resources', []):
+            fp = os.path.join(out, rd.get('path', ''))
+            if not os.path.isfile(fp):
+                return 'parseable descriptor lists %r which does not exist' % rd.get('path')
+            data = open(fp, 'rb').read()
+            if rd.get('bytes') != len(data) or rd.get('hash') != iolab.md5(data):
+                return 'parseable descriptor lists %r with bytes=%r but the file has %d bytes' % (
+                    rd.get('path'), rd.get('bytes'), len(data))
+        return None
+
     def record():
         plan = crashlab.Plan('record')
         crashlab.install(plan, scratch)
+        online = []
+
+        def on_event(n, kind, detail):
+            # every I/O event is a potential interruption point: the invariant must hold on the directory as it is
+            # now, whatever thread performs the event (also decides schedules where writers run concurrently)
+            pr = snapshot_problem('rec')
+            if pr and not online:
+                online.append('before event %d (%s %s): %s' % (n, kind, detail, pr))
+        plan.on_event = on_event
         rep = run_dump('rec')
         rep['trace'] = list(plan.trace)
         rep['unshimmed'] = list(plan.unshimmed)
+        rep['online'] = online
+        rep['online_checks'] = plan.n
         return rep
     code, rec = crashlab.in_child(record, os.path.join(scratch, 'rep.json'))
     assert code == 0 and rec and rec['ok'], (code, rec)
@@ -79,6 +109,10 @@ def run_case(case):
                     inconclusive='unshimmed file-system events: %r' % rec['unshimmed'][:3])
     trace = rec['trace']
     K = len(trace)
+    counters['online_invariant_checks'] = rec.get('online_checks', 0)
+    if rec.get('online'):
+        add('online_invariant', 'during an uninterrupted dump the directory violated the invariant %s' % rec['online'][0],
+            'online/' + ('listed_file_missing' if 'does not exist' in rec['online'][0] else 'listed_file_incomplete'))
     ks = list(range(1, K + 2))
     sampled = False
     if case['tier'] == 'quick' and K > 80:
@@ -113,22 +147,29 @@ def run_case(case):
         if len(desc.get('resources', [])) != len(tables):
             add('descriptor_resources', '%s: descriptor lists %d resources of %d' %
                 (what, len(desc.get('resources', [])), len(tables)), 'descriptor_resources')
-    for k in ks:
-        out = 'k%d' % k
+    modes = [('kill', k) for k in ks] + [('raise', k) for k in ks if k <= K and (k % 3 == 0 or case['tier'] == 'thorough')]
+    for mode, k in modes:
+        out = '%s%d' % (mode[0], k)
 
-        def crash(k=k, out=out):
-            plan = crashlab.Plan('kill', at=k)
+        def crash(k=k, out=out, mode=mode):
+            plan = crashlab.Plan(mode, at=k)
             crashlab.install(plan, scratch)
-            return run_dump(out)
+            rep = run_dump(out)
+            rep['fired'] = plan.fired
+            return rep
         code, rep = crashlab.in_child(crash, os.path.join(scratch, 'rep.json'))
         ev = trace[k - 1][0] if k <= K else 'after_last'
-        what = 'kill before event %d/%d (%s %s)' % (k, K, ev, trace[k - 1][1] if k <= K else '')
-        if k <= K and code != 137:
+        what = '%s before event %d/%d (%s %s)' % (mode, k, K, ev, trace[k - 1][1] if k <= K else '')
+        if mode == 'raise':
+            if not (rep and rep.get('fired')):
+                continue        # not reached in this run (nondeterministic trace): not counted
+        elif k <= K and code != 137:
             shutil.rmtree(out, ignore_errors=True)
             return dict(nontrivial=False, violations=viol, cov=cov, counters=counters,
                         inconclusive='crash point %s did not fire (exit %r)' % (what, code))
         counters['crash_points_executed'] += 1
         cov['crash_event_kind'][ev] = cov['crash_event_kind'].get(ev, 0) + 1
+        cov.setdefault('mode', {})[mode] = cov.setdefault('mode', {}).get(mode, 0) + 1
         verify(out, what)
         shutil.rmtree(out, ignore_errors=True)
     shutil.rmtree('rec', ignore_errors=True)
